@@ -16,7 +16,9 @@ from props import loaderlib as L
 ID = 'C01'
 PROFILES = ['debug', 'release']
 CASE_TIMEOUT = 1500
-THEOREMS = []          # filled in at the end of this file
+THEOREMS = ['C01_no_panic', 'C01_no_panic_release', 'C01_terminates', 'C01_two_outcomes', 'C01_dump_root_terminates',
+            'C01_shipped_spec_wellformed', 'C01_panic_sources', 'C01_root_missing_rejected']
+MODEL_PER_PROFILE = True
 RULE = ('structured: random catalogs (1..5 pages, nested page-tree nodes, fonts, 1..3 content streams per page, '
         'filters none/Flate/AHx/A85 and chains, predictors) x hostile mutation of ONE point: each numeric parameter '
         '(/Predictor /Columns /Colors /BitsPerComponent /Length /Count /N /First /Size, xref offsets, startxref) replaced '
@@ -105,6 +107,25 @@ def a85(data):
     return out + b'~>'
 
 
+def zkey(data):
+    return 'z%d.%d' % (len(data), zlib.adler32(data) & 0xffffffff)
+
+
+def zanswer(data):
+    """what zlib inflate says about `data`: (key, hex out | E, hex tail)."""
+    d = zlib.decompressobj()
+    try:
+        out = d.decompress(data)
+        if not d.eof:
+            return (zkey(data), 'E', '-')
+        return (zkey(data), out.hex() or '-', d.unused_data.hex() or '-')
+    except zlib.error:
+        return (zkey(data), 'E', '-')
+
+
+ORACLE = []        # filled by encode_stream while a document is generated
+
+
 def encode_stream(rng, payload, allow_pred=True):
     """returns (dict entries, encoded bytes)."""
     ents, data = [], payload
@@ -134,6 +155,7 @@ def encode_stream(rng, payload, allow_pred=True):
                 data = png_encode(rows, enc_pred, 1)
                 p = D(Predictor=I(pred), Columns=I(cols))
             data = zlib.compress(data, rng.choice([0, 1, 6, 9]))
+            ORACLE.append(zanswer(data))
             parms.append(p)
         elif f == 'A85':
             data = a85(data)
@@ -178,6 +200,7 @@ def gen_content(rng):
 
 def gen_doc(rng):
     """returns {num: value}, root num.  values are loaderlib tuples; streams ('stream', ents, payload)."""
+    del ORACLE[:]
     objs = {}
     nxt = [3]
 
@@ -342,7 +365,9 @@ def mutate_doc(rng, objs):
                        Colors=I(rng.choice(EXTREMES + [1, 3])), BitsPerComponent=I(rng.choice(EXTREMES + [8, 16])))
                 ents = [(k, x) for k, x in v[1] if k not in (b'Filter', b'DecodeParms')]
                 ents += [(b'Filter', N('FlateDecode')), (b'DecodeParms', pd)]
-                objs[n] = ('stream', ents, zlib.compress(bytes(rng.randrange(256) for _ in range(rng.randrange(0, 40)))))
+                z = zlib.compress(bytes(rng.randrange(256) for _ in range(rng.randrange(0, 40))))
+                ORACLE.append(zanswer(z))
+                objs[n] = ('stream', ents, z)
                 return objs, 'parm-add'
         if cand:
             n, p, x = rng.choice(cand)
@@ -427,6 +452,52 @@ def byte_mutations(rng, data, n):
     return out
 
 
+def vdepth(v):
+    if v[0] == 'arr':
+        return 1 + max([vdepth(x) for x in v[1]] + [0])
+    if v[0] in ('dict', 'stream'):
+        return 1 + max([vdepth(x) for k, x in v[1]] + [0])
+    return 1
+
+
+def strip_nulls(v):
+    """the parser drops dictionary entries whose value is null (property C02)."""
+    if v[0] == 'arr':
+        return ('arr', [strip_nulls(x) for x in v[1]])
+    if v[0] in ('dict', 'stream'):
+        return (v[0], [(k, strip_nulls(x)) for k, x in v[1] if x[0] != 'null']) + tuple(v[2:])
+    return v
+
+
+def ctx_text(objs):
+    parts = []
+    for n in sorted(objs):
+        v = strip_nulls(objs[n])
+        if v[0] == 'stream':
+            v = ('stream', list(v[1]) + [(b'Length', I(len(v[2])))], v[2])
+        parts.append('%d.0=%s' % (n, L.show(v)))
+    return ';'.join(parts) or '-'
+
+
+def m_case(seed, objs, root):
+    """a modelled case, or None if the document is outside what the pipeline model covers (it would not
+    load to exactly `objs`): nesting close to the parser's depth bound, duplicate dictionary keys."""
+    try:
+        if max(vdepth(v) for v in objs.values()) > 40:
+            return None
+    except RecursionError:
+        return None
+    for v in objs.values():
+        for p, x in paths(v):
+            if x[0] in ('dict', 'stream') and len(set(k for k, _ in x[1])) != len(x[1]):
+                return None
+    data = render_simple(random.Random(seed), objs, root)
+    toks = ['M', data.hex(), ctx_text(objs), '%d.0' % root]
+    for k, o, t in dict((e[0], e) for e in ORACLE).values():
+        toks += [k, o, t]
+    return ' '.join(toks)
+
+
 def cases(tier, rng):
     out = []
     big = tier == 'thorough'
@@ -447,12 +518,12 @@ def cases(tier, rng):
         objs, root = gen_doc(rng)
         seed = rng.getrandbits(32)
         base = render_simple(random.Random(seed), objs, root)
-        out.append('B ' + base.hex())
+        out.append(m_case(seed, objs, root) or ('B ' + base.hex()))
         # object-level hostile mutations
         for _ in range(nmut):
             o2, what = mutate_doc(rng, objs)
             try:
-                out.append('B ' + render_simple(random.Random(seed), o2, root).hex())
+                out.append(m_case(seed, o2, root) or ('B ' + render_simple(random.Random(seed), o2, root).hex()))
             except RecursionError:
                 pass
         # loader-level mutations
@@ -485,8 +556,8 @@ def cases(tier, rng):
     return list(dict.fromkeys(out))
 
 
-def comparable(case):
-    return case.startswith('M ')
+def comparable(case, mobs=None):
+    return case.startswith('M ') and mobs != 'unmodelled'
 
 
 def oracle(case, obs, prof):
@@ -504,6 +575,16 @@ def classify(case, obs):
     return case[0] + ':' + obs
 
 
-LEVEL_TEXT = 'see DESIGN.md C01'
-LEVEL_NOTE = 'partial'
-TECHNIQUE = 'composition of component totality theorems (Coq) + fault-directed runs of the real binary'
+LEVEL_TEXT = ('PARTIAL. Coq theorems about the composed model of the post-load pipeline (dump_root, type check on the dumped '
+              'shipped specification, page DOM, embedded-font test, content decoding, text extraction): for EVERY object context '
+              'no panic site is reachable (C01_no_panic; side condition for debug builds only: page contents below 2 GiB), every '
+              'loop terminates within its bound (C01_terminates, C01_dump_root_terminates), hence accepted or rejected '
+              '(C01_two_outcomes) — composed from the component theorems of C06/C07, C08/C09, C11, C12/C15/C02. The composed model is '
+              'tied to the code by running the REAL pdf_printer binary (debug and release) on rendered documents and comparing its '
+              'exit status with the model verdict (accepted/rejected) on ~950 modelled documents per run; ~2400 further byte-level '
+              'hostile files per run are judged by the oracle "exit status 0 or 1" alone. Not proved: the loader in front (separate '
+              'models/theorems: C03/C04, C13-C16), real stack/allocator limits, zlib/JPEG decoders, Drop/Ord recursion.')
+LEVEL_NOTE = ('trusted: Coq kernel; the component models and their correspondence checks (C02-C16); python renderer of documents '
+              '(props/c01.py, props/loaderlib.py); harness/src/bin/c01.rs (spawns the real binary under an 8 s watchdog); zlib as an '
+              'oracle (answers computed by python zlib and passed in the case); runtime resources are exercised, not proved')
+TECHNIQUE = 'Coq composition of component totality/termination theorems + differential run of the real binary against the composed pipeline model + fault-directed files'
